@@ -6,7 +6,8 @@
                    MARGIN of the model over axis k (`mass(a, b, axis_coordinates)`), whatever the cell of the even axis is;
      O = [0, 1]  : joint masses of the four quarter cells, corners in itertools.product([-1, 1], repeat=2) order.
    The loop returns the first corner whose cumulative probability reaches u (`u <= probability`).
-   Both axes are the same list xs (CTMCGrid has one origin index; grid[projected_position + p] reads axes[0..|O|-1]).
+   The two axes xs, ys may differ (CTMCCredit with different thresholds); they share the origin index (CTMCGrid has one).
+   The repaired code (fix-grid3) reads the neighbours of an odd coordinate on that coordinate's own axis.
    mass2 a b = model.mass(a, b) (joint rectangle mass), marg k a b = model.mass((a,), (b,), [k]). *)
 From Coq Require Import ZArith QArith Qabs List Bool Lia.
 From RV Require Import Base.QB Model.Grid Gen.GenC01Trunc Model.Chain.
@@ -32,12 +33,12 @@ Section Nd.
                marg k (fst (half xs p true)) (snd (half xs p true)) / total).
 
   (* both axes odd: joint masses of the quarter cells, order (-1,-1), (-1,1), (1,-1), (1,1) *)
-  Definition quarter (xs : list Q) (p1 p2 : nat) (d1 d2 : bool) : Q :=
-    mass2 (fst (half xs p1 d1), fst (half xs p2 d2)) (snd (half xs p1 d1), snd (half xs p2 d2)).
-  Definition corner2 (xs : list Q) (p1 p2 : nat) : option (list (bool * bool * Q)) :=
-    let total := mass2 (cell_lo mid xs p1, cell_lo mid xs p2) (cell_hi mid xs p1, cell_hi mid xs p2) in
+  Definition quarter (xs ys : list Q) (p1 p2 : nat) (d1 d2 : bool) : Q :=
+    mass2 (fst (half xs p1 d1), fst (half ys p2 d2)) (snd (half xs p1 d1), snd (half ys p2 d2)).
+  Definition corner2 (xs ys : list Q) (p1 p2 : nat) : option (list (bool * bool * Q)) :=
+    let total := mass2 (cell_lo mid xs p1, cell_lo mid ys p2) (cell_hi mid xs p1, cell_hi mid ys p2) in
     if Qeq_bool total 0 then None
-    else Some (map (fun dd => (fst dd, snd dd, quarter xs p1 p2 (fst dd) (snd dd) / total))
+    else Some (map (fun dd => (fst dd, snd dd, quarter xs ys p1 p2 (fst dd) (snd dd) / total))
                    [(false, false); (false, true); (true, false); (true, true)]).
 
   Definition step_idx (p : nat) (dir : bool) : nat := if dir then (p + 1)%nat else (p - 1)%nat.
@@ -48,33 +49,33 @@ Section Nd.
     | [] => None
     | (d1, d2, pr) :: r => if Qle_bool u (acc + pr) then Some (d1, d2) else first_corner u (acc + pr) r
     end.
-  Definition coupling_state2 (xs : list Q) (o : nat) (i1 i2 : Z) (u : Q) : option (Q * Q) :=
+  Definition coupling_state2 (xs ys : list Q) (o : nat) (i1 i2 : Z) (u : Q) : option (Q * Q) :=
     let p1 := Z.to_nat (Z.of_nat o + i1) in let p2 := Z.to_nat (Z.of_nat o + i2) in
     match Z.eqb (i1 mod 2) 0, Z.eqb (i2 mod 2) 0 with
-    | true, true => Some (nthq xs p1, nthq xs p2)
+    | true, true => Some (nthq xs p1, nthq ys p2)
     | false, true =>
         match corner1 0 xs p1 with
         | None => None
-        | Some (pl, pr) => if Qle_bool u (0 + pl) then Some (nthq xs (p1 - 1), nthq xs p2)
-                           else if Qle_bool u (0 + pl + pr) then Some (nthq xs (p1 + 1), nthq xs p2) else None
+        | Some (pl, pr) => if Qle_bool u (0 + pl) then Some (nthq xs (p1 - 1), nthq ys p2)
+                           else if Qle_bool u (0 + pl + pr) then Some (nthq xs (p1 + 1), nthq ys p2) else None
         end
     | true, false =>
-        match corner1 1 xs p2 with
+        match corner1 1 ys p2 with
         | None => None
-        | Some (pl, pr) => if Qle_bool u (0 + pl) then Some (nthq xs p1, nthq xs (p2 - 1))
-                           else if Qle_bool u (0 + pl + pr) then Some (nthq xs p1, nthq xs (p2 + 1)) else None
+        | Some (pl, pr) => if Qle_bool u (0 + pl) then Some (nthq xs p1, nthq ys (p2 - 1))
+                           else if Qle_bool u (0 + pl + pr) then Some (nthq xs p1, nthq ys (p2 + 1)) else None
         end
     | false, false =>
-        match corner2 xs p1 p2 with
+        match corner2 xs ys p1 p2 with
         | None => None
         | Some cs => match first_corner u 0 cs with
-                     | Some (d1, d2) => Some (nthq xs (step_idx p1 d1), nthq xs (step_idx p2 d2))
+                     | Some (d1, d2) => Some (nthq xs (step_idx p1 d1), nthq ys (step_idx p2 d2))
                      | None => None end
         end
     end.
 
   (* law of the coupled coarse state for u uniform: P((p1,p2) -> (t1,t2)) *)
-  Definition prob_to2 (xs : list Q) (p1 p2 t1 t2 : nat) : Q :=
+  Definition prob_to2 (xs ys : list Q) (p1 p2 t1 t2 : nat) : Q :=
     match Nat.even p1, Nat.even p2 with
     | true, true => if Nat.eqb p1 t1 && Nat.eqb p2 t2 then 1 else 0
     | false, true =>
@@ -86,13 +87,13 @@ Section Nd.
         else 0
     | true, false =>
         if Nat.eqb p1 t1 then
-          match corner1 1 xs p2 with
+          match corner1 1 ys p2 with
           | None => 0
           | Some (pl, pr) => (if Nat.eqb (p2 - 1) t2 then pl else 0) + (if Nat.eqb (p2 + 1) t2 then pr else 0)
           end
         else 0
     | false, false =>
-        match corner2 xs p1 p2 with
+        match corner2 xs ys p1 p2 with
         | None => 0
         | Some cs => qsum (map (fun c => match c with (d1, d2, pr) =>
                             if Nat.eqb (step_idx p1 d1) t1 && Nat.eqb (step_idx p2 d2) t2 then pr else 0 end) cs)
@@ -100,36 +101,36 @@ Section Nd.
     end.
 
   (* what a repair has to use for one odd axis: the JOINT mass of (half cell of the odd axis) x (cell of the even axis) *)
-  Definition corner1_joint (k : nat) (xs : list Q) (p1 p2 : nat) : option (Q * Q) :=
-    let lo := (cell_lo mid xs p1, cell_lo mid xs p2) in let hi := (cell_hi mid xs p1, cell_hi mid xs p2) in
+  Definition corner1_joint (k : nat) (xs ys : list Q) (p1 p2 : nat) : option (Q * Q) :=
+    let lo := (cell_lo mid xs p1, cell_lo mid ys p2) in let hi := (cell_hi mid xs p1, cell_hi mid ys p2) in
     let total := mass2 lo hi in
     if Qeq_bool total 0 then None
     else if Nat.eqb k 0
     then Some (mass2 (fst (half xs p1 false), snd lo) (snd (half xs p1 false), snd hi) / total,
                mass2 (fst (half xs p1 true), snd lo) (snd (half xs p1 true), snd hi) / total)
-    else Some (mass2 (fst lo, fst (half xs p2 false)) (fst hi, snd (half xs p2 false)) / total,
-               mass2 (fst lo, fst (half xs p2 true)) (fst hi, snd (half xs p2 true)) / total).
-  Definition prob_to2_joint (xs : list Q) (p1 p2 t1 t2 : nat) : Q :=
+    else Some (mass2 (fst lo, fst (half ys p2 false)) (fst hi, snd (half ys p2 false)) / total,
+               mass2 (fst lo, fst (half ys p2 true)) (fst hi, snd (half ys p2 true)) / total).
+  Definition prob_to2_joint (xs ys : list Q) (p1 p2 t1 t2 : nat) : Q :=
     match Nat.even p1, Nat.even p2 with
     | false, true =>
         if Nat.eqb p2 t2 then
-          match corner1_joint 0 xs p1 p2 with
+          match corner1_joint 0 xs ys p1 p2 with
           | None => 0
           | Some (pl, pr) => (if Nat.eqb (p1 - 1) t1 then pl else 0) + (if Nat.eqb (p1 + 1) t1 then pr else 0)
           end
         else 0
     | true, false =>
         if Nat.eqb p1 t1 then
-          match corner1_joint 1 xs p1 p2 with
+          match corner1_joint 1 xs ys p1 p2 with
           | None => 0
           | Some (pl, pr) => (if Nat.eqb (p2 - 1) t2 then pl else 0) + (if Nat.eqb (p2 + 1) t2 then pr else 0)
           end
         else 0
-    | _, _ => prob_to2 xs p1 p2 t1 t2
+    | _, _ => prob_to2 xs ys p1 p2 t1 t2
     end.
 
-  Definition inflow2_gen (pt : list Q -> nat -> nat -> nat -> nat -> Q) (xs : list Q) (o t1 t2 : nat) : Q :=
-    qsum (flat_map (fun p1 => map (fun p2 => q_entry2 mid mass2 xs xs o p1 p2 * pt xs p1 p2 t1 t2) (seq 0 (length xs)))
+  Definition inflow2_gen (pt : list Q -> list Q -> nat -> nat -> nat -> nat -> Q) (xs ys : list Q) (o t1 t2 : nat) : Q :=
+    qsum (flat_map (fun p1 => map (fun p2 => q_entry2 mid mass2 xs ys o p1 p2 * pt xs ys p1 p2 t1 t2) (seq 0 (length ys)))
                    (seq 0 (length xs))).
 End Nd.
 
@@ -137,12 +138,12 @@ End Nd.
 Definition table_big : Q := 1024.
 Definition table_marg (ps : list (Q * Q * Q * Q * Q)) (k : nat) (a b : Q) : Q :=
   if Nat.eqb k 0 then step_mass2 ps (a, - table_big) (b, table_big) else step_mass2 ps (- table_big, a) (table_big, b).
-Definition inflow2 (ps : list (Q * Q * Q * Q * Q)) (xs : list Q) (o t1 t2 : nat) : Q :=
-  inflow2_gen amid (step_mass2 ps) (prob_to2 amid (step_mass2 ps) (table_marg ps)) xs o t1 t2.
-Definition inflow2_joint (ps : list (Q * Q * Q * Q * Q)) (xs : list Q) (o t1 t2 : nat) : Q :=
-  inflow2_gen amid (step_mass2 ps) (prob_to2_joint amid (step_mass2 ps) (table_marg ps)) xs o t1 t2.
-Definition table_coupling_state2 (ps : list (Q * Q * Q * Q * Q)) (xs : list Q) (o : nat) (i1 i2 : Z) (u : Q) : option (Q * Q) :=
-  coupling_state2 amid (step_mass2 ps) (table_marg ps) xs o i1 i2 u.
+Definition inflow2 (ps : list (Q * Q * Q * Q * Q)) (xs ys : list Q) (o t1 t2 : nat) : Q :=
+  inflow2_gen amid (step_mass2 ps) (prob_to2 amid (step_mass2 ps) (table_marg ps)) xs ys o t1 t2.
+Definition inflow2_joint (ps : list (Q * Q * Q * Q * Q)) (xs ys : list Q) (o t1 t2 : nat) : Q :=
+  inflow2_gen amid (step_mass2 ps) (prob_to2_joint amid (step_mass2 ps) (table_marg ps)) xs ys o t1 t2.
+Definition table_coupling_state2 (ps : list (Q * Q * Q * Q * Q)) (xs ys : list Q) (o : nat) (i1 i2 : Z) (u : Q) : option (Q * Q) :=
+  coupling_state2 amid (step_mass2 ps) (table_marg ps) xs ys o i1 i2 u.
 
 (* F-C03-1 witness: density 4 on [1/4,1/2]x[-1/4,1/4] and on [1/2,3/4]x[1/4,2]; coarse axis [-2,-1,0,1,2] *)
 Definition nd_witness : list (Q * Q * Q * Q * Q) * list Q * nat :=
